@@ -32,6 +32,10 @@ def wire_scenarios(tier, rng):
         k = rng.randint(3, 8)
         callers = ["".join(rng.choice(OPS) for _ in range(rng.randint(2, 5))) for _ in range(k)]
         out.append({"id": "w%d" % i, "callers": callers, "inbound": rng.randint(0, 4), "chunk": rng.choice([1, 1, 2, 3]), "extra": i % 3 == 0})
+    # large packets (tens of KiB, beyond any internal buffering or splitting threshold) next to small writers and acknowledgements
+    for j in range(6 if tier == "quick" else 60):
+        callers = ["L" + rng.choice(["", "L", "0"]), "L", rng.choice(["0101", "s0g1", "1g1g"]), rng.choice(["g0g0", "0s0u"])]
+        out.append({"id": "wl%d" % j, "callers": callers, "inbound": rng.randint(2, 6), "chunk": rng.choice([512, 1024, 4096]), "extra": False})
     return out
 
 
